@@ -59,6 +59,7 @@ type Contract struct {
 	Trusted     bool
 	Lets        []Clause // Label = name
 	Requires    []Clause
+	Locals      []string // local variable names in declaration order when the contract was written (rename detection)
 	ClosureInv  []Clause // holds between complete calls of a range-over-func body closure (see iteratorCall)
 	Captures    []Clause // facts about captured variables: proved where the closure is created, assumed at its entry
 	Ensures     []Clause
@@ -108,7 +109,7 @@ type ContractFile struct {
 	Lemmas    []*Lemma
 }
 
-var kwRe = regexp.MustCompile(`^(func|mode|inline|trusted|param|let|requires|ensures|assigns|loop|invariant|modifies|decreases|rel|chain|assume_at_call|pathkey|spec|lemma|opt|captures|closure_inv)\b`)
+var kwRe = regexp.MustCompile(`^(func|mode|inline|trusted|param|let|requires|ensures|assigns|loop|invariant|modifies|decreases|rel|chain|assume_at_call|pathkey|spec|lemma|opt|captures|closure_inv|locals)\b`)
 
 var unknownDirRe = regexp.MustCompile(`^[a-z_]+\s+[A-Za-z_(\[!*"0-9]`)
 
@@ -286,6 +287,8 @@ func ParseContracts(path string) (*ContractFile, error) {
 					v = strings.TrimSpace(kv[1])
 				}
 				cur.Opts[kv[0]] = v
+			case "locals":
+				cur.Locals = strings.Fields(rest)
 			case "param":
 				fs := strings.Fields(rest)
 				if len(fs) < 2 {
